@@ -21,6 +21,7 @@
 #include "msa_struct.h"
 #include "msa_op.h"
 #include "aln_param.h"
+#include "alphabet.h"
 #include "aln_struct.h"
 #include "task.h"
 #ifdef KALIGN_VERIF
@@ -654,6 +655,20 @@ int main(int argc, char **argv)
                         }
                         free(blk);
                         fputs("\"rc\":0", out);
+                } else if (!strcmp(tok[0], "alphabet") && nt >= 2) {
+                        /* the letter -> internal code table of one of kalign's alphabets (5 DNA, 13 reduced protein,
+                           21 / 23 protein) */
+                        struct alphabet *al = create_alphabet(atoi(tok[1]));
+                        if (!al) {
+                                fputs("\"rc\":1", out);
+                        } else {
+                                fprintf(out, "\"rc\":0,\"L\":%d,\"to_internal\":[", al->L);
+                                for (int i = 0; i < 128; i++) {
+                                        fprintf(out, "%s%d", i ? "," : "", al->to_internal[i]);
+                                }
+                                fputs("]", out);
+                                free(al);
+                        }
                 } else if (!strcmp(tok[0], "heapmark")) {
 #ifdef HEAP_ACCOUNT
                         fprintf(out, "\"rc\":0,\"live_blocks\":%ld,\"live_bytes\":%ld", atomic_load(&live_blocks), atomic_load(&live_bytes));
